@@ -80,15 +80,24 @@ fn unsupported(c: &C, out: &mut Vec<&'static str>) {
 
 const RET_MONAD: &str = "    def ! ret_monad : Monad Ret =\n      comatch\n      | .return A value => ret value\n      | .bind A B computation function =>\n        do value <- ! computation;\n        ! function value\n      end\n    that\n";
 
-fn frame(sig: &str, binding: &str, call: &str, ty: &VTy) -> String {
+/// Core types come from the intrinsic files, not from the `param` package, so that global
+/// definitions depend on globals only and can be inlined into a monadic block.
+fn frame(sig: &str, globals: &str, binding: &str, call: &str, ty: &VTy) -> String {
     let show = match ty {
         | VTy::Int(_) => "do zs <- ! (int64/to_string) zres;\n    ! (stdio/write_line) zs { ! (process/exit) 0 }",
         | _ => "! (stdio/write_line) zres { ! (process/exit) 0 }",
     };
-    format!(
-        "{}begin\n  let monadic_basis = @(import(\"/repo/lib/std/control/monad.zy\")) that\n  let (= Monad, = Algebra, ()) = monadic_basis builtin in\n  begin\n{sig}{RET_MONAD}{binding}    do zres <- {call};\n    {show}\n  end\nend\n",
-        pipeline::prelude()
-    )
+    let mut s = String::from("begin\n  let monadic_basis = @(import(\"/repo/lib/std/control/monad.zy\")) that\n");
+    for (name, file) in [("VType", "vtype"), ("CType", "ctype"), ("Thk", "thk"), ("Ret", "ret"), ("Unit", "unit"), ("Int64", "i64"), ("Int8", "i8"), ("UInt8", "u8"), ("Int32", "i32"), ("String", "string")] {
+        s.push_str(&format!("  let {name} = @(import(\"/repo/lib/std/builtin/intrinsic/{file}.zy\")) that\n"));
+    }
+    s.push_str("  param (\n    (/numeric; /system; builtin) :\n    @(import(\"/repo/lib/std/builtin.zy\"))\n  ) that\n  let (Scalar = PackageInt64, int64) = numeric/int64 that\n  let (/OS; /stdio; /process) = system that\n  let (= Monad, = Algebra, ()) = monadic_basis builtin in\n  begin\n");
+    s.push_str(sig);
+    s.push_str(globals);
+    s.push_str(RET_MONAD);
+    s.push_str(binding);
+    s.push_str(&format!("    do zres <- {call};\n    {show}\n  end\nend\n"));
+    s
 }
 
 pub fn run(opts: &Opts) -> i32 {
@@ -105,11 +114,37 @@ pub fn run(opts: &Opts) -> i32 {
         let mut g = Gen::new(&mut r2);
         g.gen_sig();
         let ty = if attempts % 3 == 0 { VTy::Str } else { VTy::Int("i64") };
-        let body = g.gen_c(&CTy::Ret(Box::new(ty.clone())), &Vec::new(), 6 + (attempts % 5) * 6);
+        // global definitions: pure functions that mention globals only; the block refers to them,
+        // to the same one more than once
+        let n_globals = (attempts % 3) as usize;
+        let mut globals: Vec<(usize, VTy, VTy, C)> = Vec::new();
         let mut bad = Vec::new();
+        for k in 0..n_globals {
+            let a = if g.rng.chance(1, 2) && !g.sig.datas.is_empty() { VTy::Data(g.rng.below(g.sig.datas.len() as u64) as usize) } else { VTy::Int("i64") };
+            // endofunctions chain: the result of one call is the argument of the next
+            let b = if g.rng.chance(2, 3) { a.clone() } else { VTy::Int("i64") };
+            let x = 700_000 + k;
+            let fbody = g.gen_c(&CTy::Ret(Box::new(b.clone())), &vec![(x, a.clone())], 8);
+            unsupported(&fbody, &mut bad);
+            globals.push((800_000 + k, a.clone(), b, C::Fn(x, a, Box::new(fbody))));
+        }
+        let mut ctx: Vec<(usize, VTy)> = Vec::new();
+        let mut calls: Vec<(usize, usize, V, VTy)> = Vec::new();
+        if !globals.is_empty() {
+            for j in 0..2 + g.rng.below(2) as usize {
+                let (gid, a, b, _) = globals[g.rng.below(globals.len() as u64) as usize].clone();
+                let arg = g.gen_v(&a, &ctx, 3);
+                unsupported_v(&arg, &mut bad);
+                let q = 750_000 + j;
+                calls.push((q, gid, arg, b.clone()));
+                ctx.push((q, b));
+            }
+        }
+        let mut body = g.gen_c(&CTy::Ret(Box::new(ty.clone())), &ctx, 6 + (attempts % 5) * 6);
         unsupported(&body, &mut bad);
-        // host operations are references to global definitions: keep arithmetic and text, drop
-        // what the translation is not specified for
+        for (q, gid, arg, b) in calls.into_iter().rev() {
+            body = C::Bind(q, Box::new(C::App(Box::new(C::Force(V::Var(gid))), arg, CTy::Ret(Box::new(b.clone())))), b, Box::new(body));
+        }
         // host operations are sealed global definitions: the checker refuses to inline them into a
         // monadic block ("Cannot inline definition"), so bodies are pure
         if !bad.is_empty() {
@@ -118,20 +153,38 @@ pub fn run(opts: &Opts) -> i32 {
             }
             continue;
         }
-        let sig = Program { sig: g.sig.clone(), body: C::Ret(V::Unit) }.sig.src().replace("\n  ", "\n    ");
-        let sig = format!("  {sig}");
+        sink.count(&format!("globals_{n_globals}"));
+        // transparent data declarations where possible (a sealed type cannot be inlined either)
+        let mut sig = String::new();
+        for (d, ctors) in g.sig.datas.iter().enumerate() {
+            let recursive = ctors.iter().any(|(_, t)| format!("{} ", t.src()).contains(&format!("D{d} ")) || t.src().ends_with(&format!("D{d}")) || t.src().contains(&format!("D{d})")));
+            let body: String = ctors.iter().map(|(k, a)| format!(" | +{k} : {}", a.src())).collect();
+            if recursive {
+                sig.push_str(&format!("    def D{d} : VType = data{body} end that\n"));
+            } else {
+                sig.push_str(&format!("    let D{d} = data{body} end that\n"));
+            }
+        }
+        let mut gtext = String::new();
+        for (gid, _, _, f) in &globals {
+            gtext.push_str(&format!("    def x{gid} = {{ {} }} that\n", f.src().replace('\n', "\n      ")));
+        }
         let text = body.src().replace('\n', "\n      ");
-        let plain = frame(&sig, &format!("    def ! plain : Ret ({}) =\n      {text}\n    that\n", ty.src()), "! plain", &ty);
-        let monadic = frame(&sig, &format!("    def ! translated = @[monadic] begin\n      {text}\n    end that\n"), "! translated Ret { ! ret_monad }", &ty);
-        // a broken instance must be visible: bind that runs the computation twice
-        // the same computation as a ZCore program for the Lean reference semantics: bind the
-        // result, print it, exit 0
+        let plain = frame(&sig, &gtext, &format!("    def ! plain : Ret ({}) =\n      {text}\n    that\n", ty.src()), "! plain", &ty);
+        let monadic = frame(&sig, &gtext, &format!("    def ! translated = @[monadic] begin\n      {text}\n    end that\n"), "! translated Ret { ! ret_monad }", &ty);
+        // the same computation as a ZCore program for the Lean reference semantics: the globals as
+        // lets around the body, the result bound, printed, exit 0
         let res = 900_000usize;
         let tail = match &ty {
             | VTy::Int(t) => C::Bind(res + 1, Box::new(C::ToStr(t, V::Var(res))), VTy::Str, Box::new(C::WriteLine(V::Var(res + 1), Box::new(C::Exit(V::Int("i64", 0)))))),
             | _ => C::WriteLine(V::Var(res), Box::new(C::Exit(V::Int("i64", 0)))),
         };
-        let model = Program { sig: g.sig.clone(), body: C::Bind(res, Box::new(body.clone()), ty.clone(), Box::new(tail)) };
+        let mut whole = C::Bind(res, Box::new(body.clone()), ty.clone(), Box::new(tail));
+        for (gid, a, b, f) in globals.iter().rev() {
+            let fty = CTy::Arr(Box::new(a.clone()), Box::new(CTy::Ret(Box::new(b.clone()))));
+            whole = C::Let(*gid, V::Thunk(Box::new(f.clone()), fty), Box::new(whole));
+        }
+        let model = Program { sig: g.sig.clone(), body: whole };
         jobs.push((made, "plain", plain, model.request(fuel, b"")));
         jobs.push((made, "monadic", monadic, model.request(fuel, b"")));
         made += 1;
